@@ -112,6 +112,24 @@ fn main() {
         }
         let _ = out.flush();
     }
+    if let Some(list) = beh.get("nested").and_then(|x| x.as_array()) {
+        let bin = std::env::var("MRV_MONORAIL_BIN").unwrap_or_default();
+        let cfg = std::env::var("MRV_CONFIG").unwrap_or_default();
+        let repo = std::env::var("MRV_REPO").unwrap_or_else(|_| ".".into());
+        for (k, args) in list.iter().enumerate() {
+            let args: Vec<String> = args.as_array().map(|a| a.iter().filter_map(|x| x.as_str().map(String::from)).collect()).unwrap_or_default();
+            // same environment as this process (whatever the parent `run` put there)
+            let out = std::process::Command::new(&bin).arg("-f").arg(&cfg).args(&args).current_dir(&repo).stdin(std::process::Stdio::null()).output();
+            let v = match out {
+                Ok(o) => json!({
+                    "args": args, "code": o.status.code(),
+                    "stdout": String::from_utf8_lossy(&o.stdout), "stderr": String::from_utf8_lossy(&o.stderr),
+                }),
+                Err(e) => json!({"args": args, "spawn_error": e.to_string()}),
+            };
+            write_atomic(&trace_dir, &format!("nested-{}-{}.json", id, k), &v);
+        }
+    }
     let mut exit_code = beh.get("exit").and_then(|x| x.as_i64()).unwrap_or(0) as i32;
     let mut barrier_timeout = false;
     let mut write_failed = false;
